@@ -54,3 +54,8 @@ Theorem C10_chain_unwinds_only_on_child_panic scs ops :
   In EEndX (strip (tr _ (chain_world scs ops))) -> In (EAns APanic) (strip (tr _ (chain_world scs ops))).
 Proof. exact (chain_unwinds_only_on_child_panic scs ops). Qed.
 Print Assumptions C10_chain_unwinds_only_on_child_panic.
+
+Theorem C10_hypothesis_fails_only_by_drop_or_child_panic scs ops :
+  dropped _ (chain_world scs ops) = true -> In ODrop ops \/ In (EAns APanic) (strip (tr _ (chain_world scs ops))).
+Proof. exact (chain_dropped_means scs ops). Qed.
+Print Assumptions C10_hypothesis_fails_only_by_drop_or_child_panic.
